@@ -168,9 +168,8 @@ def gen_inputs(chk, P):
     for pat, d in G.special_trailer_inputs(rng, P):
         ins.append(('trailer:' + pat, d))
     # the decoder reaches the trailer with an EMPTY current buffer exactly when the input length is a non-zero multiple
-    # of BUF_LEN: k * BUF_LEN and its neighbours for k = 1, 2, 3, several kinds of content (the model runs buf-1/+0/+1,
-    # 2buf_exact above and 3buf_exact here; the rest is judged by the round trip on the implementation)
-    ins.append(('3buf_exact', G.periodic(rng, 3 * B, rng.choice([251, 509, 4099]), 200)))
+    # of BUF_LEN: k * BUF_LEN and its neighbours for k = 1, 2, 3, several kinds of content (the model runs buf-1/+0/+1 and
+    # 2buf_exact above, ~8 s per buffer; the rest is judged by the round trip on the implementation alone)
     for k in (1, 2, 3):
         for dlt in (-1, 0, 1):
             style = rng.randrange(4)
@@ -242,7 +241,7 @@ def run(chk):
     t0 = time.time()
     # kinds 'rt:...' are judged by the round trip on the implementation alone (no model run)
     mi = [i for i, (k, _) in enumerate(ins) if not k.startswith('rt:')]
-    cheap = ('rep', 'periodic', '3buf', '2buf_exact', '3buf_exact', 'stale:const', 'stale:period|B', 'stale:X+X[:k]', 'stale:splice')
+    cheap = ('rep', 'periodic', '3buf', '2buf_exact', 'stale:const', 'stale:period|B', 'stale:X+X[:k]', 'stale:splice')
     mr = run_par(model, [el[i] for i in mi],
                  costs=[2000 + len(el[i]) * (1 if ins[i][0] in cheap or ins[i][0].startswith('buf') else 12) for i in mi])
     em = [None] * len(el)
@@ -315,9 +314,10 @@ def run(chk):
     for k, d, e in encs:
         if len(d) >= P['BUF_LEN'] and len(d) % P['BUF_LEN'] == 0 and len(e) < (20000 if k.startswith('rt:') else 200000):
             rt_ = '-rt' if k.startswith('rt:') else ''
-            for c in ((1, 2, 8, 9, 10) if quick or rt_ else range(1, 12)):
+            # (through the model only two of them in the quick tier: ~2 s per buffer and stream)
+            for c in (range(1, 12) if rt_ or not quick else (rng5.choice([1, 2, 8]), 9)):
                 dl.append(('dec 1 0 ' + hx(e[:len(e) - c]), 'trunc' + rt_, d))
-            for i in ((len(e) - 1, len(e) - 9) if quick else range(len(e) - 9, len(e))):
+            for i in (range(len(e) - 9, len(e)) if rt_ or not quick else ()):
                 dl.append(('dec 1 0 ' + hx(e[:i] + bytes([e[i] ^ (1 << rng5.randrange(8))]) + e[i + 1:]), 'sub' + rt_, d))
             dl.append(('dec 1 0 ' + hx(e + b'\xff'), 'ext' + rt_, d))
     singles = [(k, d, e) for k, d, e in encs if len(d) <= 700]
@@ -490,9 +490,9 @@ def glue_phase(chk, P, model, bad, tie_broken):
     if exact is not None:
         # the neighbours and the second multiple: the string length moves the size byte for byte as long as the width of
         # its length field stays (the size actually reached is measured below, by the model's decoder, for every text)
-        texts += [exact, glue_module(n - 1), glue_module(n + 1), glue_module(n + B)]
+        texts += [exact, glue_module(n + 1), glue_module(n + B)]
         if not quick:
-            texts.append(glue_module(n + 2 * B))
+            texts += [glue_module(n - 1), glue_module(n + B - 1), glue_module(n + 2 * B)]
     else:
         chk.notes.append('glue: could not build a module with uncompressed size BUF_LEN')
     # written streams whose LAST byte (top byte of the stored hash) is 0xff / 0x00: small modules with varying string
@@ -515,6 +515,7 @@ def glue_phase(chk, P, model, bad, tie_broken):
     ok_e = [i for i in ok_i if mds[i].startswith('A ')]
     mes = dict(zip(ok_e, run_each(model, ['enc ' + mds[i][2:] for i in ok_e])))
     cases = []   # (line, kind, expect_ok or None)
+    case_big = []  # per case: mutant of a multi-buffer image
     for ti, (t, w) in enumerate(zip(texts, ws)):
         chk.count(('glue-write', t), nontrivial=True); chk.dist('cases', 'glue:write')
         if not w.startswith('W '):
@@ -555,9 +556,17 @@ def glue_phase(chk, P, model, bad, tie_broken):
             muts += [('trunc', s_[:len(s_) - c]) for c in (2, 8, 10)] + [('ext', s_ + b'\xff')]
         for k, m in muts:
             cases.append(('read ' + hx(m), k, m))
+        case_big += [L >= B] * (len(cases) - len(case_big))
     rl = [c[0] for c in cases]
     gi = run_par(glue, rl, ENV)
-    gm = run_par(model, ['dec 1 0 ' + hx(c[2]) for c in cases])
+    # the model's verdict; for prefixes / extensions of a multi-buffer image the model accepted it is Reject by
+    # reduce_truncated_rejected / reduce_extended_rejected (the decoder model needs ~2 s per buffer and stream)
+    by_thm = [big and k in ('trunc', 'ext') for (_, k, _), big in zip(cases, case_big)]
+    mrun = [i for i, t_ in enumerate(by_thm) if not t_]
+    gm = ['R'] * len(cases)
+    for i, y in zip(mrun, run_par(model, ['dec 1 0 ' + hx(cases[i][2]) for i in mrun],
+                                  costs=[2000 + len(cases[i][2]) * (400 if case_big[i] else 1) for i in mrun])):
+        gm[i] = y
     for (l, kind, m), x, y in zip(cases, gi, gm):
         chk.count(l, nontrivial=True); chk.dist('cases', 'glue:' + kind); chk.dist('glue_verdict', x.split()[0])
         if x.startswith('CRASH'):
